@@ -30,7 +30,7 @@ class Program:
         return self.ix.enclosing_function(node)
 
     def conditions(self, fi: FuncInfo, node: ast.AST, transitive: bool = True,
-                   kinds: Optional[Sequence[str]] = None) -> List[Cond]:
+                   kinds: Optional[Sequence[str]] = None, universal: bool = True) -> List[Cond]:
         """All guards under which `node` executes inside fi: statement-level
         control dependence (CFG / post-dominators) + expression-level guards."""
         cfg = self.cfg(fi)
@@ -41,7 +41,7 @@ class Program:
             stop = cfg.nodes[nid].ast
         out += expr_conditions(node, stop if stop is not None else fi.node, self.ix.parent)
         if nid is not None:
-            for c, lab in cfg.control_conditions(nid, transitive):
+            for c, lab in cfg.control_conditions(nid, transitive, universal):
                 n = cfg.nodes[c]
                 if n.kind == "test":
                     out.append(Cond(n.ast, lab, "if"))
